@@ -18,13 +18,18 @@ from ..common import Run, repo_import, seed
 from ..tlc import run_tlc, write_cfg
 
 BASE = dict(SuffixMatch=False, NoPrePass=False)
-CFG = {"synth": dict(MaxStreams=3, LabelIds={1, 2, 3, 4, 5, 6, 7, 8}, UserTree=False),
-       "user": dict(MaxStreams=3, LabelIds={1, 5, 8, 9, 10, 11, 12, 13}, UserTree=True),
-       "tiny": dict(MaxStreams=2, LabelIds={1, 2, 4, 6, 7}, UserTree=False)}
+CFG = {"synth": dict(MaxStreams=3, LabelIds={1, 2, 3, 4, 5, 6, 7, 8}, UserTree=0),
+       "user": dict(MaxStreams=3, LabelIds={1, 5, 8, 9, 10, 11, 12, 13}, UserTree=1),
+       "user2": dict(MaxStreams=3, LabelIds={1, 2, 5, 8, 11, 12, 14}, UserTree=2),     # a zone name used at two depths
+       "tiny": dict(MaxStreams=2, LabelIds={1, 2, 4, 6, 7}, UserTree=0)}
 INVS = ["C10_ExactlyOneLeaf", "C10_OncePerAncestor", "C10_LeafIsOwn", "EmitCase"]
 USER_TREE = dict(name="Site", type="Site", children=[
     dict(name="A", type="Process Zone", children=[dict(name="A1", type="Process Zone", children=None)]),
     dict(name="B", type="Process Zone", children=None)])
+USER_TREE2 = dict(name="Site", type="Site", children=[
+    dict(name="A", type="Process Zone", children=[dict(name="B", type="Process Zone", children=None)]),
+    dict(name="B", type="Process Zone", children=None)])
+TREES = {1: USER_TREE, 2: USER_TREE2}
 
 
 def tlc_cases(name, overrides=None, emit=True):
@@ -67,7 +72,7 @@ def replay(case):
             label = " " + label.replace("/", " / ") + " "        # whitespace around path components is trimmed by the code
         schemas.append(_OP["StreamSchema"](zone=label, name=s["name"], t_supply=ts, t_target=tt, heat_flow=q, dt_cont=5.0, htc=1.0))
     try:
-        tree = _OP["ZoneTreeSchema"].model_validate(json.loads(json.dumps(USER_TREE))) if case["userTree"] else None
+        tree = _OP["ZoneTreeSchema"].model_validate(json.loads(json.dumps(TREES[int(case["userTree"])]))) if case["userTree"] else None
         mz = _OP["prepare"](streams=schemas, utilities=[], options={}, project_name="Site", zone_tree=tree)
     except Exception as e:
         bad("C10.prepare_raises", exc=repr(e)[:300])
@@ -96,6 +101,16 @@ def replay(case):
             bad("C10.exactly_one_leaf", stream=i, label=streams[i]["label"], leaves=[list(p) for p in inleaf])
             continue
         leaf = inleaf[0]
+        # ... and it is the zone the stream was labelled into: with a user tree the zone the specification resolves the
+        # label to; without one, a generated unit-operation zone directly below the labelled path
+        want_leaf = tuple(case["assign"][i])
+        lab = tuple(x for x in streams[i]["label"].split("/"))
+        if case["userTree"] and not case["newZone"][i]:
+            if leaf != want_leaf:
+                bad("C10.leaf_is_the_labelled_zone", stream=i, label=streams[i]["label"], leaf=list(leaf), expected=list(want_leaf))
+        elif not case["userTree"]:
+            if leaf[:-1] != lab or not leaf[-1].startswith("O"):
+                bad("C10.leaf_is_the_labelled_zone", stream=i, label=streams[i]["label"], leaf=list(leaf), expected=list(lab) + ["O<k>"])
         for p, z in zones.items():
             want = 1 if leaf[:len(p)] == p else 0
             if content(z)[i] != want:
@@ -133,9 +148,9 @@ def check(prop, tier, run: Run, replay_case=None):
         run.cov["evaluations"] = 1
         return
     run.assumptions += ["labels from a universe built to contain suffix/prefix pairs, the root name and generated unit-operation names (A, A/B, A/B/C, A/O1, B, B/A, O1, Site); stream names s, s_2, s",
-                        "user tree Site -> {A -> {A1}, B}; two input classes are known findings (carved out by TLA+ predicates KFUnknown / KFNonLeaf)"]
+                        "user trees Site -> {A -> {A1}, B} and Site -> {A -> {B}, B} (a name used at two depths: ambiguous bare labels); two input classes are known findings (carved out by TLA+ predicates KFUnknown / KFNonLeaf)"]
     nontriv = set()
-    for name in ("synth", "user"):
+    for name in ("synth", "user", "user2"):
         res = tlc_cases(name)
         run.add_tlc(res, name)
         if res.violated:
